@@ -189,17 +189,68 @@ def strOp : List String → Option String
         | some u => s!"{rh u.scheme} {rh u.netloc} {rh u.path} {rh u.query} {rh u.fragment}")
   | _ => none
 
+/-- names of the `ValidRequest` conjuncts that fail (for violation keys) -/
+def srvWhy (cfg : SrvCfg) (env : SrvEnv) (data : Bytes) : String :=
+  match find crlfcrlf data with
+  | none => "incomplete"
+  | some eoh =>
+    match parseHttpHeader (data.take (eoh + 4)) with
+    | none => "parse"
+    | some (line, hs) =>
+      let vv := value hs b!"sec-websocket-version"
+      let verOk : Bool := decide (count hs b!"sec-websocket-version" = 1 ∧ ∃ v ∈ cfg.versions, rfcVersion vv = some v)
+      let verLenient : Bool := decide (count hs b!"sec-websocket-version" = 1) && (rfcVersion vv).isNone &&
+        (match pyInt vv with | some n => decide (0 ≤ n ∧ n.toNat ∈ cfg.versions) | none => false)
+      let l : List (String × Bool) := [
+        ("line", requestLineOk env line),
+        ("host", decide (count hs b!"host" = 1 ∧ hostOk cfg (value hs b!"host") = true)),
+        ("upgrade", decide (count hs b!"upgrade" ≥ 1 ∧ hasToken b!"websocket" (value hs b!"upgrade") = true)),
+        ("connection", decide (count hs b!"connection" ≥ 1 ∧ hasToken b!"upgrade" (value hs b!"connection") = true)),
+        (if verLenient then "version-syntax" else "version", verOk),
+        ("protocols", decide ((splitOn 44 (value hs b!"sec-websocket-protocol")).map strip).Nodup),
+        ("origin", originOk cfg env hs),
+        ("key", decide (count hs b!"sec-websocket-key" = 1 ∧ keyShapeOk (strip (value hs b!"sec-websocket-key")) = true)),
+        ("extensions", decide (count hs b!"sec-websocket-extensions" ≤ 1 ∧ offersOk (value hs b!"sec-websocket-extensions") = true)),
+        ("capacity", decide (cfg.maxConnections = 0 ∨ env.connCount ≤ cfg.maxConnections))]
+      let bad := (l.filter (fun x => !x.2)).map (·.1)
+      if bad.isEmpty then "-" else ",".intercalate bad
+
+def cliWhy (cfg : CliCfg) (key : Bytes) (data : Bytes) : String :=
+  match find crlfcrlf data with
+  | none => "incomplete"
+  | some eoh =>
+    match parseHttpHeader (data.take (eoh + 4)) with
+    | none => "parse"
+    | some (line, hs) =>
+      let stLenient := !statusOk line && (match splitWs line with
+        | a :: b :: _ => a == b!"HTTP/1.1" && pyInt b == some 101
+        | _ => false)
+      let pv := strip (value hs b!"sec-websocket-protocol")
+      let l : List (String × Bool) := [
+        (if stLenient then "status-syntax" else "status", statusOk line),
+        ("upgrade", decide (count hs b!"upgrade" ≥ 1 ∧ lower (strip (value hs b!"upgrade")) = b!"websocket")),
+        ("connection", decide (count hs b!"connection" ≥ 1 ∧ hasToken b!"upgrade" (value hs b!"connection") = true)),
+        ("accept", decide (count hs b!"sec-websocket-accept" = 1 ∧
+            strip (value hs b!"sec-websocket-accept") = acceptDigest key)),
+        ("extensions", decide (count hs b!"sec-websocket-extensions" ≤ 1 ∧
+            responseExtensionsOk cfg (value hs b!"sec-websocket-extensions") = true)),
+        ("protocol", decide (count hs b!"sec-websocket-protocol" ≤ 1 ∧ (pv = [] ∨ pv ∈ cfg.protocols)))]
+      let bad := (l.filter (fun x => !x.2)).map (·.1)
+      if bad.isEmpty then "-" else ",".intercalate bad
+
 def handle : List String → Option String
   | ["hs.srv", cfg, env, chunks] => do
       let cfg ← srvCfg cfg
       let env ← srvEnv env
       let cs ← chunksOf chunks
-      pure (srvOutStr (serverFeed cfg env cs) ++ "|" ++ boolStr (specRequest cfg env cs.flatten))
+      pure (srvOutStr (serverFeed cfg env cs) ++ "|" ++ boolStr (specRequest cfg env cs.flatten) ++ "|" ++
+        srvWhy cfg env cs.flatten)
   | ["hs.cli", cfg, key, chunks] => do
       let cfg ← cliCfg cfg
       let key ← hx key
       let cs ← chunksOf chunks
-      pure (cliOutStr (clientFeed cfg key cs) ++ "|" ++ boolStr (specResponse cfg key cs.flatten))
+      pure (cliOutStr (clientFeed cfg key cs) ++ "|" ++ boolStr (specResponse cfg key cs.flatten) ++ "|" ++
+        cliWhy cfg key cs.flatten)
   | ["hs.req", cfg, key] => do pure (rh (clientRequest (← cliCfg cfg) (← hx key)))
   | ["hs.digest", key] => do pure (rh (acceptDigest (← hx key)))
   | ["hs.sha1", d] => do pure (rh (Crypto7.Sha1.hash (← hx d)))
@@ -211,6 +262,10 @@ def handle : List String → Option String
   | ["hs.origin", v, br] => do
       let br ← hexList br
       pure (originStr (urlToOrigin (fun b => br.contains b) (← hx v)))
+  | ["hs.parseurl", u] => do
+      pure (match parseUrl (fun _ => true) (← hx u) with
+        | none => "ValueError"
+        | some w => s!"{boolStr w.secure} {rh w.host} {w.port} {rh w.resource}")
   | "hs.str" :: rest => strOp rest
   | _ => none
 
